@@ -51,6 +51,9 @@ func init() {
 		"into io.ReadFull / io.ReadAtLeast and package stream functions, never into a wrapper that may read ahead of the reported count.", "")
 	add("C14", "R14g: the hashes supplied for the missing positions (a subsequence of the canonical proof positions) are read through their own cursor, advanced only where one is "+
 		"consumed. R14h: every result of the missing-positions method for a non-empty request is reached through look-ups of the node store.", "")
+	add("C02", "R02f: every polNode allocated under (*Pollard).Modify has its remember field stored from the forest's full setting or set to true under a test of it. R02g: (*polNode).prune drops a niece only under a condition on the remember flags of both nieces.", "")
+	add("C09", "R09g: the Remember field of a Leaf handed to Nodes.Put inside a loop never derives from a loop-carried variable of an enclosing loop.", "")
+	add("C01", "R01g: in every function under (*MapPollard).Modify that calls the growth step, that call dominates every Put into the node store and the leaf index. ", "")
 	add("C01", "R01f: under Stump.Update, Pollard.Modify and MapPollard.Modify every store into a NumLeaves field is an increment of the value read from that field.", "")
 	add("C11", "R11i = R01f for (*Stump).Update.", "")
 	add("C07", "R07g: in the closure of (*Proof).Update every discarded error of a position function is excluded by a dominating guard, by a reviewed lemma that covers every failing return of the callee, or by the reviewed caller->callee table (valid while the callee has the reviewed number of failing returns).", "")
